@@ -726,6 +726,11 @@ func c12Stress(r *Run, rng *Rng, n int) {
 			wg.Add(1)
 			go func(t int, ks []int) {
 				defer wg.Done()
+				defer func() {
+					if e := recover(); e != nil {
+						r.Failf("C12.drain-panic.stress", line, "application thread %d panicked inside the driver API: %v", t, e)
+					}
+				}()
 				q := q0
 				if !shared && t > 0 {
 					// contexts and queues are created concurrently by the application threads
